@@ -378,6 +378,7 @@ func execConc(c *harness.Case, o *harness.Outcome, cfg *Cfg, rules [][]*mrule, e
 	inflight := map[key]int{}
 	maxIn := map[key]int{}
 	fails := make([]string, k)
+	heldAll := make([][]*ment, k)
 	blocked := 0
 	harness.RunE2(c, o, "C06", env.Clock, k, func(task int) {
 		var ents []*ment
@@ -429,20 +430,41 @@ func execConc(c *harness.Case, o *harness.Outcome, cfg *Cfg, rules [][]*mrule, e
 				}
 			}
 		}
-		for _, m := range ents {
-			if m != nil && m.live {
-				for _, r := range rules[m.res] {
-					if v := r.extract(m.args, m.attach); v != nil {
-						inflight[key{r.ID, v}]--
-					}
-				}
-				m.live = false
-				m.e.Exit()
-			}
-		}
+		// entries not exited by the caller stay live past the concurrent phase
+		heldAll[task] = ents
 	}, nil)
 	if o.Failed() {
 		return
+	}
+	// quiescent point with live entries: no call is in progress, so every in-flight figure must equal the number
+	// of live entries of its value (a figure that is missing counts as 0)
+	for r := 0; r < cfg.NRes; r++ {
+		for i, ru := range rules[r] {
+			for kk, n := range inflight {
+				if kk.rule != ru.ID {
+					continue
+				}
+				got, _ := counter(r, i, kk.v)
+				if got != int64(n) {
+					o.Fail("C06.counter", 0, "after the concurrent phase (no call in progress) rule %s value %v: in-flight figure %d, live entries %d", ru.ID, kk.v, got, n)
+					return
+				}
+				if n > 0 {
+					o.Probe("quiescent_conservation_with_live_entries")
+				}
+			}
+		}
+	}
+	// epilogue on one goroutine: exit what is still live
+	for _, ents := range heldAll {
+		for _, m := range ents {
+			if m != nil && m.live {
+				m.live = false
+				if !harness.Call(o, "C06.panic", 0, func() { m.e.Exit() }) {
+					return
+				}
+			}
+		}
 	}
 	for t, f := range fails {
 		if f != "" {
